@@ -23,11 +23,19 @@ def generate(rng, tier):
         # functions: i -> frameless with k_i; one fp function; one root function (ra undefined)
         kinds = []
         fdes = []
+        R = ARCH_REGS[arch]
         for i in range(8):
-            kind = rng.choice(["frameless", "frameless", "fp"])
+            kind = rng.choice(["frameless", "frameless", "fp", "spsave", "spsave-swapped" if arch == "a64" else "spsave"])
             k = 2 + rng.below(4)
             kinds.append((kind, k))
-            fdes.append(dict(start=0x1000 + 0x100 * i, len=0x100, rows=[(0, suites.std_row(arch, kind, k))]))
+            if kind.startswith("spsave"):
+                # sp-based CFA with BOTH registers saved (a frame record that is not used as such); on aarch64 also
+                # with x29 stored above x30
+                fs, rs = (-8, -16) if kind == "spsave-swapped" else (-16, -8)
+                row = dict(cfa=("r", R["sp"], gran * k), fp=("o", fs), ra=("o", rs))
+            else:
+                row = suites.std_row(arch, kind, k)
+            fdes.append(dict(start=0x1000 + 0x100 * i, len=0x100, rows=[(0, row)]))
         fdes.append(dict(start=0x1000 + 0x100 * 8, len=0x100, rows=[(0, suites.std_row(arch, "root", 2))]))
         pres = ["hdr", "eh", "debug"][rep % 3]
         s.module_dwarf("M", 0x10000, 0x13000, 0x10000, 0, pres, fdes, rng, shuffle=True)
@@ -47,7 +55,7 @@ def generate(rng, tier):
             frames = []
             for d, fi in enumerate(funcs):
                 kind, k = kinds[fi]
-                if kind == "frameless":
+                if kind == "frameless" or kind.startswith("spsave"):
                     cfa = cur_sp + gran * k
                 else:
                     # frame record somewhere above sp
@@ -64,13 +72,13 @@ def generate(rng, tier):
                     ra = 0x11000 + 0x100 * funcs[d + 1] + 0x10 + d
                 else:
                     ra = (0x11000 + 0x800 + 0x20) if marker == "undef" else (0 if marker == "nullra" else 0x11000 + 0x100 * funcs[0] + 0x40)
-                mem[cfa - 8] = ra
-                if kind == "fp":
+                mem[cfa - (16 if kind == "spsave-swapped" else 8)] = ra
+                if kind == "fp" or kind.startswith("spsave"):
                     nxt_fp = term
                     for dd in range(d + 1, depth):
                         if frames[dd][1] == "fp":
                             nxt_fp = frames[dd][3] - 16; break
-                    mem[cfa - 16] = nxt_fp
+                    mem[cfa - (8 if kind == "spsave-swapped" else 16)] = nxt_fp
             start_fp = term
             for dd in range(depth):
                 if frames[dd][1] == "fp":
@@ -81,17 +89,18 @@ def generate(rng, tier):
             top = term + 32
             for a in range(base, top, 8):
                 mem.setdefault(a, 0x11000 + 0x900 + (a & 0xf8))        # filler: uncovered code addresses
+            last_ra_slot = frames[-1][3] - (16 if frames[-1][1] == "spsave-swapped" else 8)
             if marker == "nullfp":
                 # after the last frame the walk continues in funcs[0] again ... make it end via fp = 0:
                 # the last return address points into an uncovered gap -> fp rule with the restored fp (0 on x86)
-                mem[frames[-1][3] - 8] = 0x12f00
+                mem[last_ra_slot] = 0x12f00
             pc = 0x11000 + 0x100 * funcs[0] + 0x20
             # the innermost function has already saved lr: the register holds something else
             lr = 0xdead0
             amask = (1 << 48) - 1
             if arch == "a64" and marker == "nullra":
                 # a null return address that still carries authentication bits is null
-                mem[frames[-1][3] - 8] = 0x5a << 56
+                mem[last_ra_slot] = 0x5a << 56
             regs = s.regs_x86(pc, base, start_fp) if arch == "x86" else s.regs_a64(amask, lr, base, start_fp)
             mid = "F%d" % sc
             s.mem(mid, sorted(mem.items()))
